@@ -10,7 +10,7 @@ CONTRACTS = {}
 def block_loop(seg_ordinal, anchor_ordinal):
     return dict(
         locals=dict(n_rows="int", block_size="int", n_blocks="int"),
-        requires=["n_rows >= 0", "block_size >= 1", "n_blocks == n_rows // block_size + 1"],
+        requires=["n_rows >= 0", "block_size >= 1", "n_blocks >= 0 and n_blocks * block_size >= n_rows and (n_blocks - 1) * block_size <= n_rows"],
         segment=dict(start="for i in range(n_blocks):", start_ordinal=seg_ordinal, end=None, keep=["block_start", "block_end"]),
         ghost_init="covered = 0",
         ghost_after=[("@assign:block_end", anchor_ordinal,
@@ -33,7 +33,7 @@ for fn, cnt in _BLOCK_LOOPS.items():
 def chunk_loop(seg_ordinal, anchor_ordinal):
     return dict(
         locals=dict(n_rows="int", chunk_size="int", n_chunks="int"),
-        requires=["n_rows >= 0", "chunk_size >= 1", "n_chunks == n_rows // chunk_size + 1"],
+        requires=["n_rows >= 0", "chunk_size >= 1", "n_chunks >= 0 and n_chunks * chunk_size >= n_rows and (n_chunks - 1) * chunk_size <= n_rows"],
         segment=dict(start="for n in range(n_chunks):", start_ordinal=seg_ordinal, end=None, keep=["chunk_start", "chunk_end"]),
         ghost_init="covered = 0",
         ghost_after=[("@assign:chunk_end", anchor_ordinal,
@@ -51,7 +51,7 @@ def inner_chunk_loop(seg_ordinal, anchor_ordinal, size_name):
     """`for j in range(n_chunks):` nested in a block loop: the chunks partition [block_start, block_end)."""
     return dict(
         locals={"block_start": "int", "block_end": "int", "n_chunks": "int", size_name: "int"},
-        requires=["0 <= block_start and block_start <= block_end", "%s >= 1" % size_name, "n_chunks == (block_end - block_start) // %s + 1" % size_name],
+        requires=["0 <= block_start and block_start <= block_end", "%s >= 1" % size_name, "n_chunks >= 0 and n_chunks * %s >= block_end - block_start and (n_chunks - 1) * %s <= block_end - block_start" % (size_name, size_name)],
         segment=dict(start="for j in range(n_chunks):", start_ordinal=seg_ordinal, end=None, keep=["chunk_start", "chunk_end"]),
         ghost_init="covered = block_start",
         ghost_after=[("@assign:chunk_end", anchor_ordinal,
@@ -65,3 +65,38 @@ def inner_chunk_loop(seg_ordinal, anchor_ordinal, size_name):
 CONTRACTS[F + "SinkhornVectorizer.transform#chunks"] = inner_chunk_loop(1, 1, "self.chunk_size")
 CONTRACTS[F + "WassersteinVectorizer.transform#sinkhorn_chunks"] = inner_chunk_loop(1, 1, "self.sinkhorn_chunk_size")
 CONTRACTS[F + "sinkhorn_vectors_sparse#chunks"] = inner_chunk_loop(1, 2, "chunk_size")
+
+
+# ---------------------------------------------------------------- the loop counts themselves
+# The loop segments above take the number of blocks / chunks as a live-in local with the documented value; that value is
+# computed by an assignment outside the loop.  Each such assignment is its own one-statement segment here, so that an edit
+# of the count (e.g. dropping the "+ 1" that covers the remainder) fails an obligation instead of being assumed away.  What is
+# required of the count is what the loop needs - enough blocks to reach the last row - not the literal formula.
+def count_stmt(var, ordinal, cover, extra_locals=()):
+    loc = {"n_rows": "int", "block_size": "int", "chunk_size": "int", "block_start": "int", "block_end": "int"}
+    loc.update({n: "int" for n in extra_locals})
+    return dict(
+        locals=loc,
+        requires=["n_rows >= 0", "block_size >= 1", "chunk_size >= 1", "0 <= block_start and block_start <= block_end"] + ["%s >= 1" % n for n in extra_locals],
+        segment=dict(start="@assign:" + var, start_ordinal=ordinal, end=None),
+        ensures=[cover],
+    )
+
+
+_NB = "n_blocks >= 0 and n_blocks * block_size >= n_rows and (n_blocks - 1) * block_size <= n_rows"
+_COUNTS = {
+    "lot_vectors_sparse_internal": [("n_chunks", 1, "n_chunks >= 0 and n_chunks * chunk_size >= n_rows and (n_chunks - 1) * chunk_size <= n_rows", ())],
+    "lot_vectors_dense_internal": [("n_chunks", 1, "n_chunks >= 0 and n_chunks * chunk_size >= n_rows and (n_chunks - 1) * chunk_size <= n_rows", ())],
+    "lot_vectors_sparse": [("n_blocks", 1, _NB, ())],
+    "lot_vectors_dense": [("n_blocks", 1, _NB, ())],
+    "lot_vectors_dense_generator": [("n_blocks", 1, _NB, ()), ("n_chunks", 2, "n_chunks >= 0 and n_chunks * chunk_size >= block_end - block_start and (n_chunks - 1) * chunk_size <= block_end - block_start", ())],
+    "sinkhorn_vectors_sparse": [("n_blocks", 1, _NB, ()), ("n_chunks", 2, "n_chunks >= 0 and n_chunks * chunk_size >= block_end - block_start and (n_chunks - 1) * chunk_size <= block_end - block_start", ())],
+    "WassersteinVectorizer.transform": [("n_blocks", 1, _NB, ()), ("n_blocks", 2, _NB, ()), ("n_blocks", 3, _NB, ()),
+                                        ("n_chunks", 1, "n_chunks >= 0 and n_chunks * self.sinkhorn_chunk_size >= block_end - block_start and (n_chunks - 1) * self.sinkhorn_chunk_size <= block_end - block_start", ("self.sinkhorn_chunk_size",)),
+                                        ("n_chunks", 2, "n_chunks >= 0 and n_chunks * chunk_size >= block_end - block_start and (n_chunks - 1) * chunk_size <= block_end - block_start", ())],
+    "SinkhornVectorizer.transform": [("n_blocks", 1, _NB, ()), ("n_chunks", 1, "n_chunks >= 0 and n_chunks * self.chunk_size >= block_end - block_start and (n_chunks - 1) * self.chunk_size <= block_end - block_start", ("self.chunk_size",))],
+}
+for _fn, _lst in _COUNTS.items():
+    for _var, _k, _formula, _extra in _lst:
+        CONTRACTS[F + "%s#count_%s%d" % (_fn, _var, _k)] = count_stmt(_var, _k, _formula, _extra)
+
